@@ -43,7 +43,11 @@ Fails(r) ==
                          \/ (r.op.k = "SaveIncr" /\ n = r.op.n /\ obs.ns = after.ns /\ after.ns # before.ns))
                        => (Per(obs, n).ok /\ Per(obs, n).ids # <<>> /\ Per(obs, n).ids[Len(Per(obs, n).ids)] = after.msgs[n])
             [] c = "furtherSaveWorks" ->
-                   (obs.reopen /\ obs.further.done) =>
+                   \* (a further save under a number that already holds a completed message - possible only after
+                   \* plain SaveMessage calls that did not move the counter - is not judged: the session never does that)
+                   (obs.reopen /\ obs.further.done
+                      /\ obs.further.n \notin DOMAIN before.msgs
+                      /\ ~(r.op.k = "Save" /\ obs.further.n = r.op.n /\ Per(obs, r.op.n).ok /\ Per(obs, r.op.n).ids = <<after.msgs[r.op.n]>>)) =>
                        \* the new message is retrievable under its number (last), nothing torn or foreign
                        \* comes with it, and the counter moved on
                        /\ ~obs.further.err /\ obs.further.ok /\ obs.further.ns = obs.further.n + 1
